@@ -48,6 +48,7 @@ type Ack struct {
 	State    nbs.VerifJrnWriterState
 	PreState nbs.VerifJrnWriterState
 	WOps     []WOp // the journal-writer operations this commit is expected to perform
+	Clock    uint64 // next value of the (pinned) root record timestamp generator when the commit started
 }
 
 // WOp: chunk (addr, full compressed payload) or root.
@@ -81,6 +82,10 @@ type Built struct {
 }
 
 var Ctx = context.Background()
+
+// OnAck (optional) is called right after every acknowledged commit (used by the strace worker to
+// emit a marker syscall).
+var OnAck func(i int, root hash.Hash, off int64)
 
 func NBF() string { return constants.FormatDoltString }
 
@@ -248,6 +253,7 @@ func Build(dir string, h History) (bt *Built, err error) {
 			nbs.VerifJrnAddUnsyncd(st, c.Bump)
 			wops[0].Bump = c.Bump
 		}
+		clock := bt.Ts + 1
 		ok, cerr := st.Commit(Ctx, rc.Hash(), last)
 		if cerr != nil || !ok {
 			return nil, fmt.Errorf("commit %d: ok=%v err=%v", ci, ok, cerr)
@@ -258,7 +264,10 @@ func Build(dir string, h History) (bt *Built, err error) {
 		if !ok2 {
 			return nil, fmt.Errorf("no journal writer after commit")
 		}
-		bt.Acks = append(bt.Acks, Ack{Root: rc.Hash(), Off: ws.Off, Children: children, State: ws, PreState: pre, WOps: wops})
+		bt.Acks = append(bt.Acks, Ack{Root: rc.Hash(), Off: ws.Off, Children: children, State: ws, PreState: pre, WOps: wops, Clock: clock})
+		if OnAck != nil {
+			OnAck(ci, rc.Hash(), ws.Off)
+		}
 		if ci == 0 {
 			bt.ManifestOpen, _ = os.ReadFile(filepath.Join(dir, "manifest"))
 		}
